@@ -117,6 +117,10 @@ func makeScenario(seed int64, s int, tier string) scenario {
 func run(c *harness.Ctx, i int) {
 	desync.Digest = desync.SHA512256{}
 	s, slot := i/slots, i%slots
+	if slot == 1 && (s == 5 || (c.Tier == "thorough" && s%400 == 5)) {
+		hugeChunk(c, s)
+		return
+	}
 	sc := makeScenario(c.Seed, s, c.Tier)
 	if sc.op == "cli" {
 		runCLI(c, sc, s, slot)
@@ -505,6 +509,54 @@ func runCLILocal(c *harness.Ctx, sc scenario, s, slot int) {
 	}
 	c.NonTrivial("cli-local|%s|u%v|full%v|ok", cmdName, uncompressed, full)
 	c.Sample(map[string]interface{}{"op": "cli-local:" + cmdName, "chunks": len(sc.idx.Chunks), "uncompressed": uncompressed, "target_fs_pages": pages})
+}
+
+// hugeChunk: chunk sizes are part of the input (make -m takes them up to gigabytes): one chunk of more than 64 MiB,
+// chopped into a local store in either format, must be readable from it afterwards.
+func hugeChunk(c *harness.Ctx, s int) {
+	rng := harness.CaseRng(c.Seed^0x4096e, s)
+	size := 64<<20 + 1 + rng.Intn(6<<20)
+	if c.Tier == "thorough" && rng.Intn(2) == 0 {
+		size = 128<<20 + rng.Intn(8<<20)
+	}
+	uncompressed := rng.Intn(3) == 0
+	c.Info("scenario=%d op=huge-chunk bytes=%d uncompressed=%v", s, size, uncompressed)
+	c.LogInfo()
+	blob := make([]byte, size)
+	block := make([]byte, 1<<20)
+	rng.Read(block)
+	for off := 0; off < size; off += len(block) {
+		copy(blob[off:], block)
+		blob[off] = byte(off >> 20) // compressible, yet no two blocks alike
+	}
+	dir := c.CaseDir()
+	file := filepath.Join(dir, "blob")
+	dsu.WriteFile(file, blob)
+	idx := desync.Index{Index: desync.FormatIndex{FeatureFlags: desync.CaFormatSHA512256, ChunkSizeMin: 16 << 20, ChunkSizeAvg: 64 << 20, ChunkSizeMax: 256 << 20},
+		Chunks: []desync.IndexChunk{{ID: dsu.Sum(blob), Start: 0, Size: uint64(size)}}}
+	target := filepath.Join(dir, "target")
+	os.MkdirAll(target, 0755)
+	ls, err := desync.NewLocalStore(target, desync.StoreOptions{Uncompressed: uncompressed})
+	dsu.Must(err)
+	if err := desync.ChopFile(context.Background(), file, idx.Chunks, ls, 2, &dsu.CountPB{}); err != nil {
+		// refusing is not a violation of "complete when it reports success"
+		c.Count("huge_chunk_refused", 1)
+		c.NonTrivial("huge-chunk|refused")
+		return
+	}
+	fresh, err := desync.NewLocalStore(target, desync.StoreOptions{Uncompressed: uncompressed})
+	dsu.Must(err)
+	ch, gerr := fresh.GetChunk(idx.Chunks[0].ID)
+	if gerr != nil {
+		c.Violation("missing-after-success:huge-chunk", "ChopFile of one chunk of %d bytes into a local store (uncompressed=%v) reported success, reading the chunk back fails: %v", size, uncompressed, gerr)
+		return
+	}
+	if b, derr := ch.Data(); derr != nil || !bytes.Equal(b, blob) {
+		c.Violation("invalid-after-success:huge-chunk", "ChopFile of one chunk of %d bytes reported success, what is read back differs (err %v)", size, derr)
+		return
+	}
+	c.Count("huge_chunks_stored_and_read_back", 1)
+	c.NonTrivial("huge-chunk|u%v|ok", uncompressed)
 }
 
 // runSFTP: chop / copy into an sftp:// target whose server (the shim) fails the k-th close of a written file after
